@@ -174,7 +174,7 @@ impl std::ops::Add for CDDAOffset {
         // their added quantities will also
         // be divsible by 588
         Self {
-            offset: self.offset + rhs.offset,
+            offset: self.offset.saturating_add(rhs.offset),
         }
     }
 }
